@@ -81,7 +81,7 @@ DEMAND_ENS = [
     # a rule that needs to run gets exactly one task, waits, and its recorded dependencies start empty
     ('P:C01,P:C02,P:C06', 'OLD(ruleInfo->state) == %sNeedsToRun ==> (RESULT == 0 && ruleInfo->state == %sInProgressWaiting && g_created == OLD(g_created) + 1 && '
                           'ruleInfo->result.dependencies.items.len == 0 && ruleInfo->result.builtAt == OLD(ruleInfo->result.builtAt) && g_new_taskinfo->forRuleInfo == ruleInfo && '
-                          'ruleInfo->inProgressInfo.pendingTaskInfo == g_new_taskinfo)' % (S, S)),
+                          '__CPROVER_pointer_in_range_dfcc(g_new_taskinfo, ruleInfo->inProgressInfo.pendingTaskInfo, g_new_taskinfo))' % (S, S)),
     # a task without outstanding requests is queued as ready exactly once
     ('P:C06', 'OLD(ruleInfo->state) == %sNeedsToRun ==> ((g_new_taskinfo->waitCount == 0) ? (self->readyTaskInfos.len == OLD(self->readyTaskInfos.len) + 1 && self->readyTaskInfos.ptr[self->readyTaskInfos.len - 1] == g_new_taskinfo) '
               ': self->readyTaskInfos.len == OLD(self->readyTaskInfos.len))' % S),
@@ -146,13 +146,23 @@ def scanreq_variant(tag, bstate_req, bassigns):
     d['unwindset'] = {'BuildEngineImpl_processRuleScanRequest_' + tag + '_wrapped_for_contract_checking.0': 2}
     d['requires'] = [r for r in d['requires'] if not r.startswith('(g_ri_b->state ==')] + bstate_req
     d['assigns'] = [x for x in d['assigns'] if not isinstance(x, tuple)] + bassigns
-    # NOT CLOSED at this commit for the idle / in-progress starting states of the other rule: parking the request on a task
-    # record reached through a pointer that a replaced callee left untouched trips cbmc's value-set dereferencing
-    # (see DESIGN.md section 2); those two variants are translated but not run, and nothing is claimed from them
-    d['prove'] = (tag == 'last_scanning')
+    d['prove'] = True
+    if tag == 'last_scanning':
+        # a deferred request is parked unchanged on the rule it waits for: same index, the looked-up input, and the
+        # recorded order-only flag (the coherence a resumed request is required to have on entry is re-established on exit)
+        def parked(rec):
+            v = rec + '->deferredScanRequests'
+            e = v + '.ptr[' + v + '.len - 1]'
+            return ('(' + v + '.len == OLD(' + v + '.len) + 1 && ' + e + '.ruleInfo == g_ri_a && ' + e + '.inputIndex == request.inputIndex && ' +
+                    e + '.inputRuleInfo == LOOK && (' + e + '.orderOnly != 0) == (OO != 0))')
+        d['ensures'] = d['ensures'] + [('P:C01,P:C02,P:C06', 'g_ri_a->state == ' + S + 'IsScanning ==> (LOOK == g_ri_b ? ' + parked('OLD(' + _BSCAN + ')') + ' : ' +
+                                        parked('OLD(g_ri_a->inProgressInfo.pendingScanRecord)') + ')')]
+        d['ensures'] = [(e[0], e[1].replace('LOOK', _LOOK).replace('OO', _OO)) if isinstance(e, tuple) else e for e in d['ensures']]
     return d
 
 
+_LOOK = '(g_ri_a->result.dependencies.items.ptr[request.inputIndex].keyID._value == g_key_a ? g_ri_a : g_ri_b)'
+_OO = 'g_ri_a->result.dependencies.items.ptr[request.inputIndex].orderOnly'
 _BSCAN = 'g_ri_b->inProgressInfo.pendingScanRecord'
 _BTASK = 'g_ri_b->inProgressInfo.pendingTaskInfo'
 _RSR = 'struct BuildEngineImpl_RuleScanRequest'
@@ -369,3 +379,22 @@ UNIT = {
         },
     },
 }
+
+
+def _views(x):
+    """contract text uses X->inProgressInfo.pendingScanRecord / .pendingTaskInfo; the union is lowered to one cell with typed views"""
+    import re as _re
+    if isinstance(x, str):
+        x = _re.sub(r'([A-Za-z_][A-Za-z0-9_]*(?:->[A-Za-z_][A-Za-z0-9_]*)*)->inProgressInfo\.pendingScanRecord', r'PSR(\1)', x)
+        x = _re.sub(r'([A-Za-z_][A-Za-z0-9_]*(?:->[A-Za-z_][A-Za-z0-9_]*)*)->inProgressInfo\.pendingTaskInfo', r'PTI(\1)', x)
+        return x
+    if isinstance(x, tuple):
+        return tuple(_views(i) for i in x)
+    if isinstance(x, list):
+        return [_views(i) for i in x]
+    if isinstance(x, dict):
+        return {k: (_views(v) if k in ('requires', 'assigns', 'ensures', 'loops', 'invariant', 'functions', 'stubs') or isinstance(k, int) or '::' in str(k) or str(k).startswith(('BuildEngine', 'Rule', 'Task', 'Dependency')) else v) for k, v in x.items()}
+    return x
+
+
+UNIT = _views(UNIT)
